@@ -165,6 +165,12 @@ where
     }
 
     fn exit(&self, span: &span::Id) {
+        // If this exit releases the span's last reference, the registry must
+        // not close the span before the subscribers have seen `on_exit`.
+        #[cfg(all(feature = "registry", feature = "std"))]
+        let _guard = (&self.inner as &dyn Collect)
+            .downcast_ref::<Registry>()
+            .map(|registry| registry.start_exit());
         self.inner.exit(span);
         self.subscriber.on_exit(span, self.ctx());
     }
